@@ -298,3 +298,24 @@ Definition lp_eval (A : list (list Z)) (owt : list Z) (C : list (list Z)) (cap i
 Definition opt3_eqb (a : option (list Z * list Z * evalT)) (s : list Z) (r : evalT) : bool :=
   match a with Some (s', _, r') => zl_eqb s' s && evalT_eqb r' r | None => false end.
 Definition natl2_eqb := list_eqb natl_eqb.
+
+(** ** vocabulary of the kernel definitions regenerated from the source (Gen/C06_Kernel.v) *)
+(** the climbers' loop state exactly as the source keeps it: the global best (gbest_obj, gbest_ineqcv, gbest_eqcv,
+    gbest_score, gbest_cv) and the running best of one scan (best_i, best_j, best_obj, best_ineqcv, best_eqcv,
+    best_score, best_cv) — score and violation are STORED, not recomputed *)
+Record gst := mkG { g_obj : list Z; g_ineq : list Z; g_eq : list Z; g_score : Z; g_cv : Z }.
+Record hcst := mkHC { h_i : option nat; h_j : option nat; h_obj : list Z; h_ineq : list Z; h_eq : list Z; h_score : Z; h_cv : Z }.
+Definition is_none {A} (o : option A) : bool := match o with None => true | Some _ => false end.
+Definition g_ev (g : gst) : evalT := (g_obj g, g_ineq g, g_eq g).
+Definition h_ev (b : hcst) : evalT := (h_obj b, h_ineq b, h_eq b).
+(** numpy: a[ix] for an index array; M[arange(len(cols)), cols] = vals on a matrix whose rows all equal [base];
+    argmin(M, axis=0); x.round(decimals).astype(int) *)
+Definition np_take {A} (d : A) (l : list A) (ix : list nat) : list A := map (fun i => nth i l d) ix.
+Definition np_rowwise_assign (base : list Z) (cols : list nat) (vals : list Z) : list (list Z) :=
+  map (fun cv => set_nth (fst cv) base (snd cv)) (combine cols vals).
+Definition np_argmin0 (ncol : nat) (M : list (list Z)) : list nat :=
+  map (fun j => argminZ (map (fun r => nth j r 0) M)) (seq 0 ncol).
+Definition np_round_astype (decimals : Z) (qs : list Q) : list Z := if decimals =? 0 then map rhe qs else [].
+(** pymoo_addon.dominates (hand model): constraint violation first, Pareto dominance among feasible solutions *)
+Definition dominates_m (o1 : list Z) (cv1 : Z) (o2 : list Z) (cv2 : Z) : bool :=
+  if (cv1 <=? 0) && (cv2 <=? 0) then zdom o1 o2 else cv1 <? cv2.
